@@ -81,6 +81,8 @@ ARG_POOL = (
     ArgDef("r", NN(N("Int"))),
     ArgDef("st", N("Stamp")),
     ArgDef("b", N("Boolean"), True, False, "false"),
+    ArgDef("li", L(NN(N("Inp")))),
+    ArgDef("ll", L(L(NN(N("Int"))))),
 )
 
 BEHAVIOURS = ("sync", "default", "async", "awaitable", "nested", "gen")
@@ -530,17 +532,23 @@ class OpGen:
             return "{%s}" % ", ".join(lit), js, py
         raise AssertionError(base)
 
-    def _value(self, t, st):
+    def _value(self, t, st, single_ok=None):
         """(literal, json, py) for an input type ref."""
         if t[0] == "NN":
-            return self._value(t[1], st)
+            return self._value(t[1], st, single_ok)
         if t[0] == "L":
-            n = st.below(4, "list_n")
+            if single_ok is None:
+                # "a single value in a list position is wrapped" is exercised
+                # for flat lists only; wrapping inside nested lists is input
+                # coercion proper (C07) and is not used as workload
+                inner = t[1][1] if t[1][0] == "NN" else t[1]
+                single_ok = inner[0] != "L"
+            n = st.below(4 if single_ok else 3, "list_n")
             if n == 3:
                 # single value in list position is wrapped
-                lit, js, py = self._value(t[1], st)
+                lit, js, py = self._value(t[1], st, False)
                 return lit, js, [py]
-            items = [self._value(t[1], st) for _ in range(n)]
+            items = [self._value(t[1], st, False) for _ in range(n)]
             return (
                 "[%s]" % ", ".join(i[0] for i in items),
                 [i[1] for i in items],
@@ -555,8 +563,10 @@ class OpGen:
         args, argspec = [], {}
         for a in fdef.args:
             required = a.type[0] == "NN"
-            mode = st.weighted((4, 3, 2, 1) if not required else (4, 3, 0, 0),
-                               "argmode")
+            w = (4, 3, 2, 1) if not required else (4, 3, 0, 0)
+            if self.features.get("prefer_vars"):
+                w = (1, 8, 1, 0) if not required else (1, 8, 0, 0)
+            mode = st.weighted(w, "argmode")
             # 0 literal, 1 variable, 2 omitted, 3 explicit null
             if mode == 2:
                 continue
@@ -589,6 +599,8 @@ class OpGen:
             val = self._value(a.type, st)
             if mode == 1:
                 how = st.below(3, "varhow")
+                if self.features.get("prefer_vars"):
+                    how = 0
                 if how == 0 or (how == 2 and required):
                     v = self._new_var(a.type, val, provided=True)
                 elif how == 1:
